@@ -5,6 +5,7 @@
 //! operations without any cache: the oracle is `cached result == uncached result`.
 //!
 //! Modes:  `c19 FILE`        one case per line (format below), one result line per case
+//!         `c19 SEEDS readers` the generic readers on the Repository API (see `readers_case`)
 //!         `c19 SEEDS e2e`   one seed per line: identical backup/forget/prune/check histories
 //!                           with no_cache = true / false (see `e2e_case`)
 //!
@@ -492,9 +493,111 @@ fn e2e_inner(line: &str) -> anyhow::Result<String> {
     ))
 }
 
+// ------------------------------------------------------------------------------- readers
+// The generic readers on the real Repository API.  (1) For each reader: is the file type
+// listed below the cache while it runs (dynamic cross-check of the table regenerated from the
+// source)?  (2) A snapshot that another (uncached) handle removed, still in the cache of the
+// cached handle (re-planted before every call): does the reader return the same outcome
+// through the cached handle as through a handle without cache?
+// Line: `seed`.  Result: `name=<listed 0/1>:<cached ok/err>:<uncached ok/err>` ...
+fn readers_case(line: &str) -> String {
+    match std::panic::catch_unwind(|| readers_inner(line)) {
+        Ok(Ok(s)) => s,
+        Ok(Err(e)) => format!("error {e:#}").replace('\n', " "),
+        Err(_) => "panic".into(),
+    }
+}
+
+fn readers_inner(line: &str) -> anyhow::Result<String> {
+    use rustic_core::repofile::{IndexFile, SnapshotFile, SnapshotId};
+    use rustic_core::RepositoryOptions;
+    use verif_harness::e2e::*;
+    let mut t = Toks::new(line);
+    let mut r = SplitMix(t.u());
+    let store = mem();
+    let (repo, key) = init_repo(store.clone(), None, &small_pack_config(12_000, 1_500), &repo_opts())?;
+    drop(repo);
+    let rec = RecBackend::new(store.clone(), "below-cache");
+    rec.set_plan(FaultPlan { record_reads: true, ..FaultPlan::default() });
+    let cdir = tempfile::tempdir()?;
+    let mut copts = RepositoryOptions::default();
+    copts.no_cache = false;
+    copts.cache_dir = Some(cdir.path().to_path_buf());
+    let src = tempfile::tempdir()?;
+    let tp = TreeParams { max_entries: 8, max_depth: 2, max_file: 20_000, odd_names: false, symlinks: false, hardlinks: false };
+    materialize(src.path(), &gen_tree(&mut r, &tp))?;
+    let mut snaps = Vec::new();
+    for k in 0..3 {
+        std::fs::write(src.path().join("extra"), Content::Random { seed: r.next(), len: 3000 + k }.bytes())?;
+        let repo = open_repo(rec.clone(), None, &key, &copts)?;
+        let (_r, snap) = backup_dir(repo, src.path(), "src", None)?;
+        snaps.push(snap);
+    }
+    let root = std::fs::read_dir(cdir.path())?.flatten().map(|e| e.path()).find(|p| p.is_dir()).ok_or_else(|| anyhow::anyhow!("no cache dir"))?;
+    let victim = snaps[0].id;
+    let vhex = victim.to_hex().to_string();
+    let vpath = root.join("snapshots").join(&vhex[..2]).join(&vhex);
+    let vbytes = std::fs::read(&vpath)?; // written through by the backup
+    let other = snaps[2].id.to_hex().to_string();
+    // another process forgets the first snapshot
+    open_repo(store.clone(), None, &key, &repo_opts())?.delete_snapshots(&[victim])?;
+
+    type Call = Box<dyn Fn(RepoOpen) -> bool>;
+    let full = vhex.clone();
+    let pre = vhex[..10].to_string();
+    let calls: Vec<(&str, FileType, Call)> = vec![
+        ("StreamAll", FileType::Snapshot, Box::new(|rp| rp.stream_files::<SnapshotFile>().map(|it| it.filter(Result::is_ok).count()).is_ok())),
+        ("StreamList", FileType::Snapshot, { let v = victim; Box::new(move |rp| rp.stream_files_list::<SnapshotFile>(vec![v]).map(|it| it.filter(Result::is_ok).count() == 1).unwrap_or(false)) }),
+        ("GetFile", FileType::Snapshot, { let v = victim; Box::new(move |rp| rp.get_file::<SnapshotFile>(&v).is_ok()) }),
+        ("FindIdsFull", FileType::Snapshot, { let f = full.clone(); Box::new(move |rp| rp.find_ids::<SnapshotId, _>(&[f.clone()]).map(|i| i.count() == 1).unwrap_or(false)) }),
+        ("FindIdsPrefix", FileType::Snapshot, { let f = pre.clone(); Box::new(move |rp| rp.find_ids::<SnapshotId, _>(&[f.clone()]).map(|i| i.count() == 1).unwrap_or(false)) }),
+        ("SnapFromStrLatest", FileType::Snapshot, Box::new(|rp| rp.get_snapshot_from_str("latest", |_| true).is_ok())),
+        ("SnapFromStrPrefix", FileType::Snapshot, { let f = pre.clone(); Box::new(move |rp| rp.get_snapshot_from_str(&f, |_| true).is_ok()) }),
+        ("SnapFromStrId", FileType::Snapshot, { let f = full.clone(); Box::new(move |rp| rp.get_snapshot_from_str(&f, |_| true).is_ok()) }),
+        ("SnapFromStrsLatest", FileType::Snapshot, { let f = full.clone(); Box::new(move |rp| rp.get_snapshots_from_strs(&["latest".to_string(), f.clone()], |_| true).map(|v| v.iter().all(|s| s.id != SnapshotId::default())).unwrap_or(false)) }),
+        ("SnapFromStrsPrefix", FileType::Snapshot, { let (f, o) = (pre.clone(), other.clone()); Box::new(move |rp| rp.get_snapshots_from_strs(&[o[..10].to_string(), f.clone()], |_| true).is_ok()) }),
+        ("SnapFromStrsIdsOnly", FileType::Snapshot, { let (f, o) = (full.clone(), other.clone()); Box::new(move |rp| rp.get_snapshots_from_strs(&[o.clone(), f.clone()], |_| true).map(|v| v.len() == 2).unwrap_or(false)) }),
+        ("SnapUpdateFromIdsFull", FileType::Snapshot, { let f = full.clone(); Box::new(move |rp| rp.get_snapshots(&[f.clone()]).map(|v| v.len() == 1).unwrap_or(false)) }),
+        ("SnapUpdateFromIdsPrefix", FileType::Snapshot, { let f = pre.clone(); Box::new(move |rp| rp.get_snapshots(&[f.clone()]).map(|v| v.len() == 1).unwrap_or(false)) }),
+        ("SnapUpdateFromBackend", FileType::Snapshot, { let v = victim; Box::new(move |rp| rp.get_all_snapshots().map(|l| l.iter().any(|s| s.id == v)).unwrap_or(false)) }),
+        ("IndexNew", FileType::Index, Box::new(|rp| rp.to_indexed().is_ok())),
+        ("IndexOnlyFullTrees", FileType::Index, Box::new(|rp| rp.to_indexed_ids().is_ok())),
+        ("CatFileFull", FileType::Snapshot, { let f = full.clone(); Box::new(move |rp| rp.cat_file(FileType::Snapshot, &f).is_ok()) }),
+        ("CatFilePrefix", FileType::Snapshot, { let f = pre.clone(); Box::new(move |rp| rp.cat_file(FileType::Snapshot, &f).is_ok()) }),
+        // the command level: backup with the removed snapshot as explicit parent (from_strs, full ids only):
+        // "ok" = the parent was found and used
+        ("BackupExplicitParent", FileType::Snapshot, {
+            let (f, d) = (full.clone(), src.path().to_path_buf());
+            Box::new(move |rp| {
+                let mut po = rustic_core::ParentOptions::default();
+                po.parents = vec![f.clone()];
+                let bo = rustic_core::BackupOptions::default().parent_opts(po);
+                backup_dir(rp, &d, "src", Some(bo)).map(|(_, sn)| !sn.get_parents().is_empty()).unwrap_or(false)
+            })
+        }),
+    ];
+    let _ = IndexFile::default();
+    let mut out = Vec::new();
+    for (name, tpe, call) in &calls {
+        // the removed snapshot is (again) in the cache
+        std::fs::create_dir_all(vpath.parent().unwrap())?;
+        std::fs::write(&vpath, &vbytes)?;
+        let cached = open_repo(rec.clone(), None, &key, &copts)?;
+        let _ = rec.take_log();
+        let a = call(cached);
+        let listed = rec.take_log().iter().any(|o| o.kind == OpKind::List && o.tpe == *tpe);
+        let b = call(open_repo(store.clone(), None, &key, &repo_opts())?);
+        let still = vpath.exists();
+        out.push(format!("{name}={}:{}:{}:{}", listed as u8, if a { "ok" } else { "err" }, if b { "ok" } else { "err" }, still as u8));
+    }
+    Ok(format!("ok {}", out.join(" ")))
+}
+
 fn main() {
     let args: Vec<String> = std::env::args().collect();
-    if args.len() > 2 && args[2] == "e2e" {
+    if args.len() > 2 && args[2] == "readers" {
+        for_each_case(|l| readers_case(l));
+    } else if args.len() > 2 && args[2] == "e2e" {
         for_each_case(|l| e2e_case(l));
     } else {
         for_each_case(|l| ops_case(l));
